@@ -14,8 +14,9 @@ EXTENDS Tokenize, Json, IOUtils
 
 Traces == JsonDeserialize(IOEnv.TRACE_FILE)
 NT == Len(Traces)
-VARIABLE tid
-tvars == <<vars, tid>>
+VARIABLES tid, bucket
+tvars == <<vars, tid, bucket>>
+NB == 64
 
 T(t) == Traces[t]
 RECURSIVE Flat(_, _)
@@ -42,15 +43,16 @@ ObsWords(t) == [k \in DOMAIN T(t).words |->
                   [s |-> T(t).words[k].cs, e |-> T(t).words[k].ce, special |-> T(t).words[k].special]]
 ModelRun(t) == Run(ToSetOf(T(t).sp), T(t).cands, Len(T(t).text))
 
-TInit == /\ tid \in 1..NT
+TInit == /\ tid = 0 /\ bucket \in 0..(NB - 1)
          /\ sp = {} /\ cands = <<>> /\ pc = "trace" /\ order = <<>> /\ i = 0
          /\ offset = 0 /\ last = NoTok /\ words = <<>> /\ ctoks = <<>>
-TNext == FALSE /\ UNCHANGED tvars
+TNext == /\ tid = 0 /\ \E t \in {x \in 1..NT : x % NB = bucket} : tid' = t
+         /\ UNCHANGED <<vars, bucket>>
 TSpec == TInit /\ [][TNext]_tvars
 
-Judge == \A cl \in Clauses : Holds(cl, tid) \/ PrintT(<<"FAIL", tid, cl>>)
-Conform == T(tid).raised = "" =>
+Judge == tid # 0 => \A cl \in Clauses : Holds(cl, tid) \/ PrintT(<<"FAIL", tid, cl>>)
+Conform == (tid # 0 /\ T(tid).raised = "") =>
              LET m == ModelRun(tid) IN
              (m.words = ObsWords(tid) /\ m.ctoks = T(tid).ctoks) \/ PrintT(<<"DRIFT", tid>>)
-Done == PrintT(<<"DONE", tid>>)
+Done == tid # 0 => PrintT(<<"DONE", tid>>)
 =============================================================================
